@@ -7,6 +7,7 @@ mod provider;
 mod replay;
 mod rng;
 mod run;
+mod targets;
 
 use std::{
     fs::{File, OpenOptions},
